@@ -96,7 +96,7 @@ PROPS["C13"] = dict(
 	           "json_syntax::print::print_object", "json_syntax::print::printed_string_size", "json_syntax::print::string_literal",
 	           "Display for Indent/IndentBy/Spaces", "Size::add"],
 	bounds="k <= 3 children per level (object emission k <= 2); decision: numeric fields <= 4096, widths <= 4096; emission: numeric fields <= 3, indent unit <= 4 spaces / 2 tabs, depth <= 2, output <= 96 bytes; keys: one arbitrary Unicode scalar value",
-	outside=["fields/widths above the bounds", "more than 3 children per level", "recursion wrappers over heap Value trees (lock-step consumption of `sizes`)", "keys longer than one character (string_literal itself: C08)"],
+	outside=["fields/widths above the bounds", "more than 3 children per level", "the printer proper (P2) on objects of two or more entries under symbolic options (the k=2 instance does not complete: CBMC gives up after 6 min / 12 GB; arrays go to k=3, objects to k=1)", "recursion wrappers over heap Value trees (lock-step consumption of `sizes`)", "keys longer than one character (string_literal itself: C08)"],
 	stubs=[],
 	assumptions=["children are abstracted by (Size, slots pushed) for the decision and by (one ASCII byte, slots consumed) for the emission: the kernels are generic over the child type, so this covers any subtree"],
 	harnesses=[
@@ -114,8 +114,7 @@ PROPS["C13"] = dict(
 		H("print::c13_p2_array_k3", "ext", "thorough", 3600, _OPT_P2, "k=3, unwind 6, 80-byte sink"),
 		H("print::c13_p2_object_k0", "ext", "quick", 600, _OPT_P2, "k=0, unwind 6, 24-byte sink"),
 		H("print::c13_p2_object_k1", "ext", "quick", 1200, _OPT_P2 + "; keys: any char", "k=1, unwind 6, 64-byte sink"),
-		H("print::c13_p2_object_k2", "ext", "thorough", 3600, _OPT_P2 + "; keys: any char", "k=2, unwind 6, 96-byte sink"),
-		H("print::c08_string_literal_1char", "ext", "quick", 900, "c: any Unicode scalar value (1,112,064 one-character strings)", "unwind 6"),
+			H("print::c08_string_literal_1char", "ext", "quick", 900, "c: any Unicode scalar value (1,112,064 one-character strings)", "unwind 6"),
 		H("print::c08_string_literal_2chars", "ext", "quick", 900, "c1, c2 from a 12-character escape-relevant alphabet", "unwind 6"),
 		H("print::c13_indent_is_depth_times_unit", "ext", "quick", 900, "indent unit Spaces(n)|Tabs(n), n <= 24, depth <= 4, n*depth <= 96; probe index symbolic", "unwind 26"),
 	],
@@ -449,10 +448,10 @@ def OBJ(tier, depth, cap):
 
 
 PROPS["C06"]["harnesses"] = PROPS["C06"]["harnesses"] + [OBJ("quick", 4, 1500), OBJ("thorough", 5, 7200)]
-PROPS["C14"]["harnesses"] = PROPS["C14"]["harnesses"] + [OBJ("quick", 4, 1500), OBJ("thorough", 5, 7200)]
-PROPS["C14"]["functions"] = PROPS["C14"]["functions"] + ["impl Clone / PartialEq / Ord / PartialOrd / Hash for Object (from MIR), on every object reachable by <= 4 / 5 operations, against a twin with the same entries and an EMPTY index, its clone and its strict prefix"]
+PROPS["C14"]["harnesses"] = PROPS["C14"]["harnesses"] + [OBJ("quick", 4, 1500)]  # the Eq/Ord/Hash/Clone checks stop at 4 operations: depth 5 adds nothing for C14
+PROPS["C14"]["functions"] = PROPS["C14"]["functions"] + ["impl Clone / PartialEq / Ord / PartialOrd / Hash for Object (from MIR), on every object reachable by <= 4 operations, against a twin rebuilt from the same entries by pushes, its clone, its strict prefix, and (objects reached by <= 3 operations) laws on two further real objects: the entries reversed and the entries without the first"]
 PROPS["C14"]["assumptions"] = PROPS["C14"]["assumptions"] + ["Object-level check (MIR): Vec<Entry>'s ==, cmp and hash are modelled on the entry lists (std trusted); the object's index is compared structurally"]
-PROPS["C14"]["outside"] = ["nested arrays/objects beyond one slice level (Kani laws)", "objects of more than 4 (quick) / 5 (thorough) entries", "Kani on non-empty heap objects (does not finish; replaced by the MIR-based object check)"]
+PROPS["C14"]["outside"] = ["nested arrays/objects beyond one slice level (Kani laws)", "objects of more than 4 entries", "Kani on non-empty heap objects (does not finish; replaced by the MIR-based object check)"]
 def CANONN(tier, level, cap):
 	what = "objects of <= 2 members with values from {t, {}, {k:t}, {k:t,k:f}, [{k:t,k:f}]} and arrays of <= 2 items from {t, {k:t,k:f}}" if level == 1 else \
 	       "the level-1 values plus objects of <= 2 members with a value among {k:{k:t,k:f}} (three levels) and {k:t,k:f,k:t}, and objects of 3 members with values from {t, {k:t}, {k:t,k:f}}"
